@@ -382,6 +382,25 @@ def _plant_engine(task, rec):
     except Exception as e:
         rec.case(('plant_engine', fault, p, s), (fault, p, s, 'raised'), outcome='no-number')
         return
+    # at this entry point the library only evaluates: an element that no observation reads (an entry of a selection that is
+    # never selected, a term whose condition is false everywhere, the utility of an alternative that is never available) is
+    # never met by the engine, so no refusal can be demanded there; decided with the reference's lazy `reads` on a probe column
+    probe = R.subst(term, {FAULTS[fault]: ('var', '__probe__')})
+    full = dict(G.PARAMS)
+    full['x1'] = 0.5
+    met = False
+    for row in G.ROWS:
+        try:
+            if '__probe__' in R.reads(probe, dict(row, __probe__=1.0), full):
+                met = True
+                break
+        except Exception:
+            met = True          # the reference cannot tell: judge
+            break
+    if not met:
+        rec.case(None, (fault, p, s, 'not-read-by-any-observation'), outcome='not-read')
+        rec.count('plant_engine_element_not_read_by_any_observation')
+        return
     rec.case(('plant_engine', fault, p, s), (fault, p, s, 'accepted'), outcome='accepted')
     rec.violation(f'C12|number-returned-for-misplaced-element|fault={fault}:entry=get_value_c:under={p}',
                   f'{fault} at {site_name(p, s)}: get_value_c returned {out} for {R.show(term)}',
